@@ -187,7 +187,7 @@ def make_judges(ctx):
 
 def floors(tier):
     cells = [('rel', m, 'bound') for m in G.ROUNDINGS] + [('rel', 'around', 'tie-even')]
-    cells += [('monotone', m) for m in G.ROUNDINGS] + [('idempotent-noflag', m) for m in G.ROUNDINGS] + [('idempotent-indexed',), ('restore-int',), ('idempotent-like-flagged-template',)]
+    cells += [('monotone', m) for m in G.ROUNDINGS] + [('idempotent-noflag', m) for m in G.ROUNDINGS] + [('idempotent-indexed',), ('restore-int',), ('idempotent-like-flagged-template',), ('wide-fixed-point-input',)]
     return cells
 
 
@@ -293,6 +293,31 @@ def run_case(case, ctx):
                 d.set_val(src)
                 d.equal(src)
                 Fxp(src[0], s, w, nf, rounding=r, overflow=o)
+            except Exception:
+                pass
+    # inputs given as fixed-point values whose codes need 54 .. 62 bits (products of ordinary operands are like that): every bit counts for the direction
+    wsrc = rng.randint(55, 62)
+    lo_d, hi_d = R.code_range(s, w)
+    extra = wsrc - 1 - max(abs(lo_d), abs(hi_d), 1).bit_length()       # fraction bits of the source beyond the destination's
+    if extra >= 2 and -8 <= nf + extra <= wsrc + 8:
+        ks = []
+        for _ in range(4):
+            kd = rng.randint(lo_d, hi_d) if rng.random() < 0.8 else rng.choice([lo_d, hi_d])
+            k = kd * 2 ** extra + rng.choice([1, -1, rng.randint(-(2 ** extra) + 1, 2 ** extra - 1), 2 ** (extra - 1) + 1, 2 ** (extra - 1) - 1])
+            if abs(k) < 2 ** (wsrc - 1) and (s or k >= 0):
+                ks.append(k)
+        if ks:
+            try:
+                src = Fxp(np.array(ks, dtype=object), True, wsrc, nf + extra, raw=True)
+                Fxp(src, s, w, nf, rounding=r, overflow=o)
+                d = Fxp(None, s, w, nf, rounding=r, overflow=o)
+                d(src)
+                d.set_val(src)
+                Fxp(src[0], s, w, nf, rounding=r, overflow=o)
+                one = Fxp(None, True, wsrc, nf + extra)
+                one.set_val(ks[0], raw=True)
+                Fxp(one, s, w, nf, rounding=r, overflow=o)
+                ctx.floor_hit(('wide-fixed-point-input',))
             except Exception:
                 pass
     # sorted hostile inputs (including out-of-range ones) for the monotonicity relation
